@@ -41,7 +41,7 @@ def B1_kind_blocks(repo, clause, funcs=None):
         if len(set(counts.values())) > 1:
             obs.append(Ob("B1", clause, fn, fn.node, False,
                           "the kinds do not have the same number of code pieces: %s (a step is missing or duplicated for one kind)" % counts,
-                          construct="def %s" % fn.name, slot="piece-count"))
+                          construct="def %s" % fn.name, slot="piece-count", positive=n >= need))
         for i in range(n):
             pieces = {k: buckets[k][i] for k in ks}
             devs = sib.compare_pieces(pieces, ks)
@@ -62,13 +62,14 @@ def B1_kind_blocks(repo, clause, funcs=None):
                 else:
                     detail = "; ".join(devs)[:400] + " || " + " | ".join("%s@%d: %s" % (k, pieces[k].lineno, ast.unparse(pieces[k].node)[:70].replace("\n", " ")) for k in ks)
             obs.append(Ob("B1", clause, fn, p0.node if hasattr(p0.node, "lineno") else p0.origin, ok, detail,
-                          construct=ast.unparse(p0.node)[:120], slot=slot))
+                          construct=ast.unparse(p0.node)[:120], slot=slot, positive=len(set(counts.values())) == 1 and n >= need))
         for node, msg in notes:
             # notes about kinds that are outside the compared set (e.g. improper in a CIF function) are not deviations
             if not any(k in msg for k in ks):
                 continue
             st = node
-            obs.append(Ob("B1", clause, fn, st if hasattr(st, "lineno") else fn.node, False, msg, slot="foreign:%s" % re.sub(r"\s+", " ", ast.unparse(node))[:80]))
+            obs.append(Ob("B1", clause, fn, st if hasattr(st, "lineno") else fn.node, False, msg, slot="foreign:%s" % re.sub(r"\s+", " ", ast.unparse(node))[:80],
+                          positive=n >= need))
     # the four num_K_types properties are siblings of each other
     if funcs is None or "Atoms.num_*_types" in funcs:
         pieces = {}
